@@ -2,6 +2,9 @@ import PeliteModel.Lemmas.VersionTree
 /-!
 C13 helper lemmas, part 5: the queries as functions of the parse tree, and their agreement.
 -/
+set_option linter.unusedSimpArgs false
+set_option linter.unnecessarySimpa false
+
 namespace Pelite.Version
 
 /-! ### association lists -/
